@@ -267,13 +267,17 @@ def run(ctx):
         if d.endswith("::next") and "grammar::Rule>" in (t["f"].get("full") or "") and any(x in es.reachable(bi) and bi in es.reachable(x) for x in emit):
             loops.append(bi)
     skipping = []
-    for nb in loops:
+    for nb in [x for x in loops if x is not None]:
         dest = es.blocks[nb]["term"]["dest"][0]
         for sb, e, targets, otherwise in es.switch_edges():
             if e[0] == "discr" and e[1][0] == "call" and len(e[1]) > 3 and e[1][3] == nb:
                 for v, tb in targets:
                     if int(v) == 1 and nb in es.reachable(tb, cut_blocks=emit):
                         skipping.append(nb)
+    if emit and not loops:
+        # the loop is not an explicit `for` over the rules (e.g. for_each / a helper): the per-iteration path property is not judged
+        ctx.info("C15-R5", "expand_shortcuts: rule loop not recognised as an explicit iterator loop (not judged)")
+        loops = [None]
     ctx.check(bool(loops) and bool(emit) and not skipping, "C15-R5", "expand_shortcuts:every-rule-re-emitted",
               "each iteration over a kept symbol's rules reaches add_rule_ext",
               "expand_shortcuts can skip a rule of a kept symbol (an iteration of the rule loop returns to the iterator without add_rule_ext): "
